@@ -13,6 +13,19 @@ func emitOptionsProbes(tw *traceWriter, tid int, t tableCase, routers []string, 
 	if len(universe) == 0 {
 		universe = []string{"GET", "POST", "PUT", "DELETE", "PATCH", "HEAD", "OPTIONS"}
 	}
+	// ... and every method a route of this table declares
+	universe = append([]string{}, universe...)
+	for _, s := range t.Services {
+		for _, r := range s.Routes {
+			known := false
+			for _, u := range universe {
+				known = known || u == r.M
+			}
+			if !known {
+				universe = append(universe, r.M)
+			}
+		}
+	}
 	paths := []string{}
 	seen := map[string]bool{}
 	for _, rq := range t.Reqs {
